@@ -63,6 +63,7 @@ class World:
         self.fail = fail if fail is not None else 'none'
         self.fail_p = {'none': 0.0, 'light': 0.04, 'heavy': 0.3, 'other': 0.04}.get(self.fail, 0.0)
         self.pattern = {}            # ind_id -> list of outcomes (explicit plan, C06)
+        self.kill_from = None        # call number from which every objective call times out (a run that dies)
         self.params = []
         # names: x0.. / f0.. or words that are NOT in string order (a store that returns definitions sorted by name is wrong)
         worded = D.weighted('cfg', 'names', (2, 1)) == 1
@@ -134,6 +135,8 @@ class World:
 
     # ---- failure plan
     def outcome(self, ind_id, attempt):
+        if self.kill_from is not None and len(self.calls) >= self.kill_from:
+            return 'timeout'        # the solver is down: every call from here on times out (the run dies after five)
         pat = self.pattern.get(ind_id)
         if pat is not None:
             return pat[attempt] if attempt < len(pat) else 'ok'
